@@ -40,10 +40,9 @@ ASSUMPTIONS = [
 @st.composite
 def case_strategy(draw):
     src = grammar.HypSource(draw)
-    # init=False attributes are left out here: an un-initialised attribute reads the class-level default, and an in-place
-    # element helper tried on the twin would edit that shared default (outside every listed property: C08 restricts itself to
-    # init-enabled attributes) and de-synchronise the two worlds.
-    wd = grammar.gen_world(src, dict(grammar.PROFILES["data_plain"], flags=False))
+    # (init=False attributes were left out here until the repository fix that gives every instance its own copy of their
+    # default: before it, an in-place element helper tried on the twin edited the shared class-level object.)
+    wd = grammar.gen_world(src, dict(grammar.PROFILES["data_plain"], flags=True))
     names = [c["name"] for c in wd["classes"]]
     modes = ["self", "self", "child"]
     if "P" in names:
